@@ -150,16 +150,18 @@ def pp_correspondence(ctx, cases, op="pp"):
 
 
 def reload_correspondence(ctx, cases, op="reload"):
-    """cases: [(label, plain dict that was printed, plain dict the real loads gave back for the printed text)].
+    """cases: [(label, plain dict that was printed, plain dict the real loads gave back for the printed text[, separate_complex_types])].
     Compares Lean `normDoc` (Model/Reload.lean: the dictionary a reload gives back, about which C04_document_normal_form is
     proved) with what the real printer + parser + transformer gave, exactly (keys, order, nesting, value types)."""
     reqs, keep = [], []
-    for label, d, back in cases:
+    for case in cases:
+        label, d, back = case[:3]
+        sep = bool(case[3]) if len(case) > 3 else False
         if not ascii_lower_ok(d):
             ctx.count(f"{op}-corr:skipped-nonascii-case")
             continue
         try:
-            reqs.append({"op": "reload", "d": core.enc(d)})
+            reqs.append({"op": "reload", "d": core.enc(d), "sep": sep})
         except TypeError:
             ctx.count(f"{op}-corr:skipped-unencodable")
             continue
